@@ -1,5 +1,6 @@
 import CallbagModel.Inv.XViols
 import CallbagModel.Inv.Combine
+import CallbagModel.Inv.ComposeInst
 import CallbagModel.Inv.ComposeSafe
 import CallbagModel.Inv.Concat
 import CallbagModel.Inv.Flatten
@@ -73,6 +74,10 @@ theorem C03_pipeline {S1 L1 S2 L2 α β γ : Type} {M1 : Machine S1 L1 α β} {M
     ∀ s, SReach (compose M1 M2) s → SafeFor 3 s :=
   fun s hs => safeFor_of_basicSafe _ s hs ((P1.compose P2).safe s hs) 3 (by decide)
 
+theorem C03_closed_pipeline {S1 L1 S2 L2 α β γ : Type} {Msrc : Machine S1 L1 α β} {Mmid : Machine S2 L2 β γ} (hsrc : UpSide Msrc) (hmid : Pipeable Mmid) :
+    ∀ s, SReach (compose (compose Msrc Mmid) (ForEach.machine γ)) s → SafeFor 3 s :=
+  fun s hs => safeFor_of_basicSafe _ s hs (closed_pipeline_safe hsrc hmid s hs) 3 (by decide)
+
 
 /-! ## What the monitor verdict means, in terms of the trace alone
 
@@ -133,6 +138,10 @@ theorem C03_pipe_of_two_relays_readable {σ₁ σ₂ α β γ : Type} (k₁ : Re
 theorem C03_pipeline_readable {S1 L1 S2 L2 α β γ : Type} {M1 : Machine S1 L1 α β} {M2 : Machine S2 L2 β γ} (P1 : Pipeable M1) (P2 : Pipeable M2) :
     ∀ s, SReach (compose M1 M2) s → ∀ k, DisposalRespected k s.tr :=
   fun s hs k => (readable_of_noViols hs ((P1.compose P2).safe s hs).1 k).2.2
+
+theorem C03_closed_pipeline_readable {S1 L1 S2 L2 α β γ : Type} {Msrc : Machine S1 L1 α β} {Mmid : Machine S2 L2 β γ} (hsrc : UpSide Msrc) (hmid : Pipeable Mmid) :
+    ∀ s, SReach (compose (compose Msrc Mmid) (ForEach.machine γ)) s → ∀ k, DisposalRespected k s.tr :=
+  fun s hs k => (readable_of_noViols hs (closed_pipeline_safe hsrc hmid s hs).1 k).2.2
 /-- `combine!`: the full phase-level safety statement is false (known findings KF2, KF3: messages to members that are not
 live, a C04 matter); what is proved is that those are the ONLY phase-level violations, hence C03 holds in full. -/
 theorem C03_combine {α : Type} (n : Nat) :
